@@ -275,7 +275,7 @@ func (s *mvSess) dump() string {
 			for _, e := range t.Entries {
 				es = append(es, fmtVEntry(e))
 			}
-			sb.WriteString("[" + strings.Join(es, ",") + "]")
+			sb.WriteString(fmt.Sprintf("[#%d ", t.ID) + strings.Join(es, ",") + "]")
 		}
 		parts = append(parts, sb.String())
 	}
@@ -508,11 +508,20 @@ func execMvcc(intents []string, st *Stats) (final, outs, oracle []string) {
 			emit(line, "ok")
 		case "flush":
 			pre := s.snapshotReads()
+			badger.VerifTakeEvents()
 			err := badger.VerifFlush(s.db)
-			emit(line, errKind(err))
+			if err != nil {
+				emit(line, errKind(err))
+				continue
+			}
+			s.emitEvents(emit, fail)
 			s.judgeStable("flush", pre, fail)
 			emit("dump", s.dump())
 			s.judgeStructure(fail)
+		case "dropprefix":
+			s.dropPrefix(w[1:], emit, fail)
+		case "dropall":
+			s.dropAll(emit, fail)
 		case "compact", "compact-none":
 			kv := kvWords(w[1:])
 			s.compact(kv, emit, fail)
@@ -652,6 +661,55 @@ func (s *mvSess) judgeStructure(fail func(string, string)) {
 	}
 }
 
+func joinU64(xs []uint64) string {
+	var r []string
+	for _, x := range xs {
+		r = append(r, strconv.FormatUint(x, 10))
+	}
+	return strings.Join(r, ",")
+}
+
+// emitEvents turns the flush/compaction events badger reported since the last call into op
+// lines (tables named by file id) for the model, each with the implementation's own
+// (discardTs, hasOverlap) as output. Returns the number of compaction events.
+func (s *mvSess) emitEvents(emit func(string, string), fail func(string, string)) int {
+	n := 0
+	for _, ev := range badger.VerifTakeEvents() {
+		switch ev.Kind {
+		case "flush":
+			emit(fmt.Sprintf("flush id=%d", ev.NewIDs[0]), "ok")
+		case "compact":
+			n++
+			var news []string
+			for i, id := range ev.NewIDs {
+				news = append(news, fmt.Sprintf("%d:%d", id, ev.NewCounts[i]))
+			}
+			var drops []string
+			for _, p := range ev.DropPrefixes {
+				drops = append(drops, hx(p))
+			}
+			op := fmt.Sprintf("compact this=%d next=%d top=%s bot=%s new=%s", ev.ThisLevel, ev.NextLevel,
+				joinU64(ev.TopIDs), joinU64(ev.BotIDs), strings.Join(news, ","))
+			if len(drops) > 0 {
+				op += " drop=" + strings.Join(drops, ",")
+			}
+			emit(op, fmt.Sprintf("ok discard=%d overlap=%d", ev.DiscardTs, b2i(ev.HasOverlap)))
+			s.st.Inc(fmt.Sprintf("compact:L%d->L%d", ev.ThisLevel, ev.NextLevel))
+			if len(ev.BotIDs) > 0 {
+				s.st.Inc("compact:with-bot")
+			}
+			if len(ev.NewIDs) > 1 {
+				s.st.Inc("compact:multi-output")
+			}
+			if ev.DiscardTs > s.spec.maxDiscard {
+				s.spec.maxDiscard = ev.DiscardTs
+			}
+			s.spec.compacted = true
+		}
+	}
+	return n
+}
+
 func (s *mvSess) compact(kv map[string]string, emit func(string, string), fail func(string, string)) {
 	this := kvInt(kv, "this", 0)
 	id := kvInt(kv, "id", 0)
@@ -680,91 +738,99 @@ func (s *mvSess) compact(kv map[string]string, emit func(string, string), fail f
 		badger.VerifBackdate(s.db, 2*time.Hour)
 	}
 	pre := s.snapshotReads()
-	d := badger.VerifDiscardTs(s.db)
-	before := badger.VerifLevels(s.db)
+	badger.VerifTakeEvents()
 	err := badger.VerifCompact(s.db, id, this, 1.5, adj, nil)
 	if err != nil {
 		emit(fmt.Sprintf("compact-none this=%d id=%d adj=%s", this, id, adjS), "none")
 		s.st.Inc("compact:none")
 		return
 	}
-	after := badger.VerifLevels(s.db)
-	idsAfter := map[uint64]int{}
-	for li, lvl := range after {
-		for _, t := range lvl {
-			idsAfter[t.ID] = li
-		}
-	}
-	idsBefore := map[uint64]bool{}
-	for _, lvl := range before {
-		for _, t := range lvl {
-			idsBefore[t.ID] = true
-		}
-	}
-	next := this
-	var outT []badger.VTable
-	for li, lvl := range after {
-		for _, t := range lvl {
-			if !idsBefore[t.ID] {
-				next = li
-				outT = append(outT, t)
-			}
-		}
-	}
-	removed := func(level int) []string {
-		var r []string
-		for i, t := range before[level] {
-			if _, ok := idsAfter[t.ID]; !ok {
-				r = append(r, strconv.Itoa(i))
-			}
-		}
-		return r
-	}
-	top := removed(this)
-	var bot []string
-	if next != this {
-		bot = removed(next)
-	} else if len(outT) == 0 {
-		// everything was dropped: the next level is not observable from the output; for
-		// level 0 it is the base level unless this was an L0->L0 compaction.
-		next = this
-	}
-	if len(outT) == 0 && this == 0 {
-		// distinguish L0->Lbase (all entries dropped) from L0->L0 by the picker rule
-		if !(adj > 0 && adj < 1) {
-			next = badger.VerifBaseLevel(s.db)
-			bot = removed(next)
-		}
-	}
-	sort.Slice(outT, func(i, j int) bool {
-		a, b := outT[i].Entries[0], outT[j].Entries[0]
-		c := bytes.Compare(a.Key, b.Key)
-		if c != 0 {
-			return c < 0
-		}
-		return a.Version > b.Version
-	})
-	var sizes []string
-	for _, t := range outT {
-		sizes = append(sizes, strconv.Itoa(len(t.Entries)))
-	}
-	op := fmt.Sprintf("compact this=%d next=%d id=%d adj=%s top=%s bot=%s out=%s", this, next, id, adjS,
-		strings.Join(top, ","), strings.Join(bot, ","), strings.Join(sizes, ","))
-	emit(op, fmt.Sprintf("ok discard=%d", d))
-	s.st.Inc(fmt.Sprintf("compact:L%d->L%d", this, next))
-	if d > s.spec.maxDiscard {
-		s.spec.maxDiscard = d
-	}
-	s.spec.compacted = true
-	s.judgeStable(op, pre, fail)
+	s.emitEvents(emit, fail)
+	s.judgeStable(fmt.Sprintf("compaction of level %d", this), pre, fail)
 	emit("dump", s.dump())
 	s.judgeStructure(fail)
-	s.judgeRetention(d, fail)
+	s.judgeRetention(fail)
+}
+
+// dropPrefix: C29 — DropPrefix(p...) then: no key with a dropped prefix is visible at any
+// timestamp, every other key reads as before.
+func (s *mvSess) dropPrefix(ws []string, emit func(string, string), fail func(string, string)) {
+	var prefixes [][]byte
+	for _, w := range ws {
+		prefixes = append(prefixes, unhx(w))
+	}
+	for _, t := range s.txns {
+		if !t.done {
+			// DropPrefix must not run with open iterators/transactions racing it; the generator
+			// closes them first. (Open transactions are allowed by the API; they are just readers.)
+			_ = t
+		}
+	}
+	pre := s.snapshotReads()
+	badger.VerifTakeEvents()
+	err := s.db.DropPrefix(prefixes...)
+	op := "dropprefix " + strings.Join(ws, " ")
+	if err != nil {
+		emit(op, errKind(err))
+		return
+	}
+	emit(op, "ok")
+	s.emitEvents(emit, fail)
+	emit("dump", s.dump())
+	s.judgeStructure(fail)
+	// oracle
+	has := func(k string) bool {
+		for _, p := range prefixes {
+			if bytes.HasPrefix([]byte(k), p) {
+				return true
+			}
+		}
+		return false
+	}
+	badger.VerifSyncMarks(s.db)
+	dAfter := badger.VerifDiscardTs(s.db)
+	for _, r := range pre {
+		if r.ts < dAfter {
+			continue // DropPrefix's own read-only View may advance the discard watermark
+		}
+		now := s.readAt([]byte(r.key), r.ts)
+		if has(r.key) {
+			if now != "absent" {
+				fail("C29-prefix-survived", fmt.Sprintf("after DropPrefix key %s still reads %q at ts=%d", hx([]byte(r.key)), now, r.ts))
+				return
+			}
+		} else if now != r.res {
+			fail("C29-other-key-changed", fmt.Sprintf("DropPrefix changed key %s (no dropped prefix) at ts=%d: before %q after %q", hx([]byte(r.key)), r.ts, r.res, now))
+			return
+		}
+	}
+	for k := range s.spec.hist {
+		if has(k) {
+			delete(s.spec.hist, k)
+		}
+	}
+}
+
+func (s *mvSess) dropAll(emit func(string, string), fail func(string, string)) {
+	err := s.db.DropAll()
+	emit("dropall", errKind(err))
+	if err != nil {
+		return
+	}
+	badger.VerifTakeEvents()
+	emit("dump", s.dump())
+	for _, k := range s.spec.keys() {
+		if r := s.readAt([]byte(k), math.MaxUint64); r != "absent" {
+			fail("C29-dropall-survivor", fmt.Sprintf("after DropAll key %s reads %q", hx([]byte(k)), r))
+			break
+		}
+	}
+	s.spec = newSpec()
 }
 
 // judgeRetention: C13 — no version above the discard watermark has disappeared, and the
 // newest version at or below it is still there unless it is a dead marker.
-func (s *mvSess) judgeRetention(d uint64, fail func(string, string)) {
+func (s *mvSess) judgeRetention(fail func(string, string)) {
 	have := map[string]map[uint64]bool{}
 	add := func(e badger.VEntry) {
 		m := have[string(e.Key)]
@@ -1158,6 +1224,27 @@ func genMvccSession(rng *rand.Rand, st *Stats) []string {
 			}
 			if rng.Intn(2) == 0 {
 				ops = append(ops, fmt.Sprintf("compact this=0 id=0 adj=%s", pick(rng, "0.5", "0.5", "1.5")))
+			}
+		case r < 99:
+			if rng.Intn(3) == 0 {
+				// DropPrefix / DropAll need no open transaction to be meaningful; close them so
+				// that the discard watermark can advance past the dropped data
+				for _, id := range open {
+					ops = append(ops, fmt.Sprintf("discard %d", id))
+				}
+				open = nil
+				if rng.Intn(5) == 0 {
+					ops = append(ops, "dropall")
+				} else {
+					k := keys[rng.Intn(len(keys))]
+					p := k[:1+rng.Intn(len(k))]
+					o := "dropprefix " + hx(p)
+					if rng.Intn(4) == 0 {
+						k2 := keys[rng.Intn(len(keys))]
+						o += " " + hx(k2[:1+rng.Intn(len(k2))])
+					}
+					ops = append(ops, o)
+				}
 			}
 		case r < 100 && !managed:
 			continue
